@@ -132,7 +132,11 @@ func checkC15(w *World, r *Report) {
 	if a.fail(r, "C15.R1") {
 		return
 	}
+	// the function that builds the outbound Envelope: Invoke itself or a private helper it calls
 	W := a.wInvoke
+	if b := w.holder(a.wInvoke, func(f *ssa.Function) bool { return len(w.allocsOf(f, a.envT)) == 1 }); b != nil {
+		W = b
+	}
 	g := w.FG(W)
 	site := w.fnPos(W)
 	envs := w.allocsOf(W, a.envT)
@@ -149,10 +153,23 @@ func checkC15(w *World, r *Report) {
 	}
 	// the envelope is what is sent
 	sent := false
-	for _, in := range g.ins {
-		if c := callOf(in); c != nil && c.IsInvoke() && c.Method.Name() == "Send" && len(c.Args) == 1 && c.Args[0] == ssa.Value(envs[0]) {
-			if _, isCall := in.(*ssa.Call); isCall {
+	ig := w.FG(a.wInvoke)
+	for _, in := range ig.ins {
+		if c := callOf(in); c != nil && c.IsInvoke() && c.Method.Name() == "Send" && len(c.Args) == 1 {
+			if _, isCall := in.(*ssa.Call); !isCall {
+				continue
+			}
+			if c.Args[0] == ssa.Value(envs[0]) {
 				sent = true
+			}
+			if bc, isC := c.Args[0].(*ssa.Call); isC && W != a.wInvoke && bc.Call.StaticCallee() == W {
+				// built by the helper: every return of the helper yields the literal
+				sent = true
+				for _, x := range g.returns {
+					if len(g.ins[x].(*ssa.Return).Results) != 1 || g.ins[x].(*ssa.Return).Results[0] != ssa.Value(envs[0]) {
+						sent = false
+					}
+				}
 			}
 		}
 	}
@@ -360,6 +377,10 @@ func checkC15(w *World, r *Report) {
 				sendNode[i] = true
 			}
 		}
+		if W != a.wInvoke {
+			// in a builder helper "the batch survives" means: the envelope literal is still built
+			sendNode[g.idx[envs[0]]] = true
+		}
 		skip, _ := g.CondEdges(func(v ssa.Value) (bool, bool) {
 			p := w.pathOf(v)
 			if strings.HasPrefix(p, "(call:Serializer.Serialize(") && strings.HasSuffix(p, "#1!=K:nil)") {
@@ -413,12 +434,16 @@ func checkC15(w *World, r *Report) {
 			r.Unknown("C15.R6", "serializers", "Serializer implementations exist", "-", "no Serialize/TypeName methods found in remote")
 		}
 		bad := ""
-		for _, in := range g.ins {
-			if ta, ok := in.(*ssa.TypeAssert); ok && !ta.CommaOk {
-				bad = w.pos(ta.Pos()) + " " + w.pathOf(ta.X)
+		for _, ff := range w.family(a.wInvoke) {
+			for _, bb := range ff.Blocks {
+				for _, in := range bb.Instrs {
+					if ta, ok := in.(*ssa.TypeAssert); ok && !ta.CommaOk {
+						bad = w.pos(ta.Pos()) + " " + w.pathOf(ta.X)
+					}
+				}
 			}
 		}
-		r.Check(bad == "", "C15.R6", fname(W)+":checked-assertion", "the writer asserts *streamDeliver with the comma-ok form", site,
+		r.Check(bad == "", "C15.R6", fname(a.wInvoke)+":checked-assertion", "the writer asserts *streamDeliver with the comma-ok form", site,
 			"unchecked assertion at "+bad+": any message addressed to the writer's PID kills the node")
 	}
 	checkReaderDelivery(w, r, a, "C15.R7")
@@ -535,7 +560,11 @@ func checkLookupHelper(w *World, r *Report, L *ssa.Function) {
 
 // checkReaderDelivery: C15.R7 / C16.R3.
 func checkReaderDelivery(w *World, r *Report, a *remoteAnchors, rule string) {
+	// the function that delivers one message: Receive itself or a private helper it calls per message
 	R := a.rReceive
+	if d := w.holder(a.rReceive, func(f *ssa.Function) bool { return len(w.callsIn(f, EvCall("SendLocal", a.sendLocal))) > 0 }); d != nil {
+		R = d
+	}
 	g := w.FG(R)
 	site := w.fnPos(R)
 	pairs := map[string]string{}
@@ -558,7 +587,7 @@ func checkReaderDelivery(w *World, r *Report, a *remoteAnchors, rule string) {
 	}
 	want := map[string]string{"TypeNames": "TypeNameIndex", "Targets": "TargetIndex", "Senders": "SenderIndex"}
 	for _, t := range []string{"Senders", "Targets", "TypeNames"} {
-		r.Check(pairs[t] == want[t], rule, fname(R)+":"+t+"["+want[t]+"]", "the reader indexes Envelope."+t+" with Message."+want[t], site,
+		r.Check(pairs[t] == want[t], rule, fname(a.rReceive)+":"+t+"["+want[t]+"]", "the reader indexes Envelope."+t+" with Message."+want[t], site,
 			"Envelope."+t+" is indexed with Message."+pairs[t])
 	}
 	sites := w.callsIn(R, EvCall("SendLocal", a.sendLocal))
@@ -587,13 +616,13 @@ func checkReaderDelivery(w *World, r *Report, a *remoteAnchors, rule string) {
 				if i < 0 {
 					return ""
 				}
-				j := strings.LastIndex(p[:i], "[call:")
+				j := strings.LastIndex(p[:i], ".Targets[")
 				if j < 0 {
-					j = strings.LastIndex(p[:i], "call:")
+					return ""
 				}
-				return p[j:i]
+				return p[j+len(".Targets["):i]
 			}
-			if base(tgt, "TargetIndex") == "" || !strings.Contains(pay, strings.TrimPrefix(base(tgt, "TargetIndex"), "[")+".Data") {
+			if base(tgt, "TargetIndex") == "" || !strings.Contains(pay, base(tgt, "TargetIndex")+".Data") {
 				ok, detail = false, "target and payload belong to different messages"
 			}
 		}
@@ -619,10 +648,10 @@ func checkReaderDelivery(w *World, r *Report, a *remoteAnchors, rule string) {
 				}
 			}
 		}
-		r.Check(okS, rule, fname(R)+":sender-iff-table", "the sender is read from Senders exactly when the envelope carries senders, and is nil otherwise", site,
+		r.Check(okS, rule, fname(a.rReceive)+":sender-iff-table", "the sender is read from Senders exactly when the envelope carries senders, and is nil otherwise", site,
 			"the sender table is consulted on the wrong edge of len(Senders) > 0: messages lose their sender, or a sender-less envelope ends the stream")
 	}
-	r.Check(ok, rule, fname(R)+":delivers", "SendLocal(Targets[TargetIndex], Deserialize(Data, TypeNames[TypeNameIndex]), Senders[SenderIndex] or nil), one plain call per message", site, detail)
+	r.Check(ok, rule, fname(a.rReceive)+":delivers", "SendLocal(Targets[TargetIndex], Deserialize(Data, TypeNames[TypeNameIndex]), Senders[SenderIndex] or nil), one plain call per message", site, detail)
 }
 
 // ---------------------------------------------------------------------------
@@ -824,7 +853,14 @@ func checkC16(w *World, r *Report) {
 	}
 	// error edges of the handler return the error
 	{
-		g := w.FG(R)
+		okAll := true
+		nEdges := 0
+		cands := []*ssa.Function{R}
+		if d := w.holder(R, func(f *ssa.Function) bool { return len(w.callsIn(f, EvCall("SendLocal", a.sendLocal))) > 0 }); d != nil && d != R {
+			cands = append(cands, d)
+		}
+		for _, F := range cands {
+		g := w.FG(F)
 		errEdges, _ := g.CondEdges(func(v ssa.Value) (bool, bool) {
 			b, ok := v.(*ssa.BinOp)
 			if !ok || b.Op != token.NEQ {
@@ -836,7 +872,8 @@ func checkC16(w *World, r *Report) {
 			}
 			return false, false
 		})
-		ok := len(errEdges) >= 2
+		ok := true
+		nEdges += len(errEdges)
 		sl := w.Nodes(g, EvCall("SendLocal", a.sendLocal), false)
 		for _, e := range errEdges {
 			// no delivery of this message on an error edge before the loop continues with a fresh Recv
@@ -849,6 +886,11 @@ func checkC16(w *World, r *Report) {
 				}
 			}
 		}
+		if !ok {
+			okAll = false
+		}
+		}
+		ok := okAll && nEdges >= 2
 		r.Check(ok, "C16.R2", fname(R)+":errors-end-the-message", "after a Recv or Deserialize error nothing of that envelope is delivered", w.fnPos(R), "a message whose payload failed to decode (or a failed Recv) can still reach SendLocal")
 	}
 	checkReaderDelivery(w, r, a, "C16.R3")
@@ -868,10 +910,12 @@ func checkC16(w *World, r *Report) {
 		}
 		n++
 		bad := ""
-		for _, b := range fn.Blocks {
-			for _, in := range b.Instrs {
-				if ta, ok := in.(*ssa.TypeAssert); ok && !ta.CommaOk {
-					bad = w.pos(ta.Pos())
+		for _, ff := range w.family(fn) {
+			for _, b := range ff.Blocks {
+				for _, in := range b.Instrs {
+					if ta, ok := in.(*ssa.TypeAssert); ok && !ta.CommaOk {
+						bad = w.pos(ta.Pos())
+					}
 				}
 			}
 		}
@@ -1173,6 +1217,9 @@ func checkC17(w *World, r *Report) {
 	r.Rule("C17.R6", "writer: a skipped message does not abort the batch and an EOF on the stream closes the connection (which shuts the writer down); reader: target, payload and sender are per message", 5)
 	{
 		W := a.wInvoke
+		if b := w.holder(a.wInvoke, func(f *ssa.Function) bool { return len(w.allocsOf(f, a.envT)) == 1 }); b != nil {
+			W = b
+		}
 		wg := w.FG(W)
 		sendN := make([]bool, len(wg.ins))
 		for i, in := range wg.ins {
@@ -1180,6 +1227,11 @@ func checkC17(w *World, r *Report) {
 				if _, isCall := in.(*ssa.Call); isCall {
 					sendN[i] = true
 				}
+			}
+		}
+		if W != a.wInvoke {
+			for _, al := range w.allocsOf(W, a.envT) {
+				sendN[wg.idx[al]] = true
 			}
 		}
 		skip, _ := wg.CondEdges(func(v ssa.Value) (bool, bool) {
@@ -1203,6 +1255,8 @@ func checkC17(w *World, r *Report) {
 		}
 		r.Check(ok, "C17.R6", fname(W)+":skip-keeps-the-batch", "after skipping a message the rest of the batch is still written to the stream", w.fnPos(W),
 			"one rejected message makes Invoke return: the other messages of the batch are neither delivered nor dead-lettered")
+		W = a.wInvoke
+		wg = w.FG(W)
 		eof, _ := wg.CondEdges(func(v ssa.Value) (bool, bool) {
 			p := w.pathOf(v)
 			return true, strings.HasPrefix(p, "call:errors.Is(call:DRPCRemote_ReceiveStream.Send(") && strings.HasSuffix(p, ",G:EOF)")
